@@ -64,6 +64,25 @@ Proof.
     cbn [firstn skipn app]. cbn [skipn] in E. rewrite <- E. reflexivity.
 Qed.
 
+(* ---------- every byte of a token comes from the input ---------- *)
+Lemma Forall_firstn {A} (P : A -> Prop) n l : Forall P l -> Forall P (firstn n l).
+Proof. intros H. rewrite <- (firstn_skipn n l) in H. apply Forall_app in H. apply H. Qed.
+Lemma Forall_skipn {A} (P : A -> Prop) n l : Forall P l -> Forall P (skipn n l).
+Proof. intros H. rewrite <- (firstn_skipn n l) in H. apply Forall_app in H. apply H. Qed.
+Lemma Forall_removelast {A} (P : A -> Prop) l : Forall P l -> Forall P (removelast l).
+Proof. intros H. rewrite removelast_firstn_len. apply Forall_firstn, H. Qed.
+
+Definition opt_all (P : N -> Prop) (o : option (list N)) : Prop := match o with Some l => Forall P l | None => True end.
+Definition ev_all (P : N -> Prop) (ev : event) : Prop :=
+  match ev with
+  | EvBegin n a => Forall P n /\ Forall P a
+  | EvEnd n => Forall P n
+  | EvChars t => Forall P t
+  | EvComment t => Forall P t
+  | EvHeader _ => True
+  | EvEOF => True
+  end.
+
 (* ---------- the termination measure and the line potential ---------- *)
 Definition nu (st : lstate) : nat :=
   (List.length (l_rest st) + match l_deferred st with Some _ => 1 | None => 0 end)%nat.
@@ -78,7 +97,8 @@ Definition lex_spec (st : lstate) (r : res lexout) : Prop :=
       match ev with
       | EvEOF => l_rest st' = [] /\ l_deferred st' = None
       | _ => (nu st' < nu st)%nat
-      end
+      end /\
+      (forall P : N -> Prop, Forall P (l_rest st) -> opt_all P (l_deferred st) -> ev_all P ev /\ opt_all P (l_deferred st'))
   | Val (LErr line e) => (l_line st <= line <= phi st)%N
   | Pan _ => False
   | Fuel => False
@@ -100,9 +120,10 @@ Proof.
   assert (LEN : (List.length (l_rest mid) < List.length (l_rest st))%nat).
   { rewrite E, app_length. destruct c; [congruence|cbn [List.length]; lia]. }
   destruct r as [[line ev st'|line e]| |]; try exact H.
-  - destruct H as (H1 & (c2 & E2 & L2) & H3). split; [lia|]. split.
+  - destruct H as (H1 & (c2 & E2 & L2) & H3 & H4). split; [lia|]. split; [|split].
     + exists (c ++ c2). split; [rewrite E, E2, app_assoc; reflexivity|]. rewrite count_lines_app. lia.
     + destruct ev; try exact H3; unfold nu in *; rewrite D; rewrite Dm in H3; lia.
+    + intros P FP _. apply H4; [|rewrite Dm; exact I]. rewrite E in FP. apply Forall_app in FP. apply FP.
   - unfold phi in *. rewrite E, count_lines_app. lia.
 Qed.
 
@@ -124,12 +145,14 @@ Proof.
   cbn [lex_next l_deferred l_rest l_line].
   destruct deferred as [name|].
   { (* deferred end element *)
-    cbn [lex_spec l_line l_rest l_deferred]. split; [lia|]. split.
+    cbn [lex_spec l_line l_rest l_deferred]. split; [lia|]. split; [|split].
     - exists []. split; [reflexivity|]. cbn. lia.
-    - unfold nu; cbn [l_rest l_deferred]. lia. }
+    - unfold nu; cbn [l_rest l_deferred]. lia.
+    - intros Q _ D. split; [exact D|exact I]. }
   destruct rest as [|c0 tail].
-  { cbn [lex_spec l_line l_rest l_deferred]. split; [lia|]. split; [|split; reflexivity].
-    exists []. split; [reflexivity|]. cbn. lia. }
+  { cbn [lex_spec l_line l_rest l_deferred]. split; [lia|]. split; [|split; [split; reflexivity|]].
+    - exists []. split; [reflexivity|]. cbn. lia.
+    - intros Q _ _. split; exact I. }
   destruct (N.eqb_spec c0 60) as [->|NE].
   2:{ (* read_characters *)
     assert (GEN : forall R, R = (c0 :: tail) ->
@@ -152,9 +175,10 @@ Proof.
       - eapply lex_spec_skip; [ | | |apply IH]; [reflexivity|reflexivity| | ].
         + cbn [l_rest l_line]. exists (firstn n R). split; [symmetry; apply firstn_skipn|]. split; [exact NEc|lia].
         + cbn [l_rest]. rewrite skipn_length. subst R. cbn [List.length] in *. lia.
-      - cbn [lex_spec l_line l_rest l_deferred]. split; [lia|]. split.
+      - cbn [lex_spec l_line l_rest l_deferred]. split; [lia|]. split; [|split].
         + exists (firstn n R). split; [symmetry; apply firstn_skipn|lia].
-        + unfold nu; cbn [l_rest l_deferred]. rewrite skipn_length. lia. }
+        + unfold nu; cbn [l_rest l_deferred]. rewrite skipn_length. lia.
+        + intros Q FP _. split; [|exact I]. cbn [ev_all]. apply Forall_firstn, FP. }
     specialize (GEN _ eq_refl). cbv zeta in GEN.
     destruct c0 as [|p]; [exact GEN|].
     repeat (destruct p as [p|p|]; try exact GEN). congruence. }
@@ -197,15 +221,26 @@ Proof.
   { cbv zeta. set (text := if N.eqb (last inner 0%N) 47 then removelast inner else inner).
     assert (CT : (count_lines text <= count_lines inner)%N).
     { unfold text. destruct (N.eqb (last inner 0%N) 47); [apply count_lines_removelast_le|lia]. }
+    assert (FT : forall Q : N -> Prop, Forall Q (60%N :: tail) -> Forall Q text).
+    { intros Q FP. assert (FI : Forall Q inner) by (unfold inner; apply Forall_firstn; inversion FP; assumption).
+      unfold text. destruct (N.eqb (last inner 0%N) 47); [apply Forall_removelast|]; exact FI. }
     destruct (match position is_ws text with Some sp => (firstn sp text, skipn (S sp) text) | None => (text, []) end)
-      as [elemname attributes].
-    cbn [lex_spec l_line l_rest l_deferred]. split; [lia|]. split; [apply CONS; lia|].
-    unfold nu; cbn [l_rest l_deferred List.length]. destruct (N.eqb (last inner 0%N) 47); lia. }
+      as [elemname attributes] eqn:EA.
+    assert (FE : forall Q : N -> Prop, Forall Q text -> Forall Q elemname /\ Forall Q attributes).
+    { intros Q FP. destruct (position is_ws text) as [sp|]; injection EA as <- <-.
+      - split; [apply Forall_firstn; exact FP|exact (Forall_skipn Q (S sp) text FP)].
+      - split; [exact FP|constructor]. }
+    cbn [lex_spec l_line l_rest l_deferred]. split; [lia|]. split; [apply CONS; lia|]. split.
+    - unfold nu; cbn [l_rest l_deferred List.length]. destruct (N.eqb (last inner 0%N) 47); lia.
+    - intros Q FP _. destruct (FE Q (FT Q FP)) as [F1 F2]. split; [split; assumption|].
+      destruct (N.eqb (last inner 0%N) 47); [exact F1|exact I]. }
   destruct tail as [|c1 tail']; [cbn in LT; lia|].
   destruct (N.eqb_spec c1 47) as [->|N47].
   { (* end element *)
-    cbn [lex_spec l_line l_rest l_deferred]. split; [lia|]. split; [apply CONS; lia|].
-    unfold nu; cbn [l_rest l_deferred List.length] in *. lia. }
+    cbn [lex_spec l_line l_rest l_deferred]. split; [lia|]. split; [apply CONS; lia|]. split.
+    - unfold nu; cbn [l_rest l_deferred List.length] in *. lia.
+    - intros Q FP _. split; [|exact I]. cbn [ev_all]. apply Forall_skipn. unfold inner. apply Forall_firstn.
+      inversion FP; assumption. }
   destruct (N.eqb_spec c1 63) as [->|N63].
   { (* processing instruction / xml header *)
     destruct ((findpos <? 2)%nat || negb (N.eqb (last inner 0%N) 63)) eqn:PI.
@@ -218,8 +253,9 @@ Proof.
     - destruct (header_attrs_total (tl (split_ws text)) [] [] None) as (v & e & s & ->).
       destruct (negb (bytes_eqb v (BS "1.0")) || negb (encoding_ok e)).
       + cbn [lex_spec l_line]. unfold phi; cbn [l_line l_rest]. lia.
-      + cbn [lex_spec l_line l_rest l_deferred]. split; [lia|]. split; [apply CONS; lia|].
-        unfold nu; cbn [l_rest l_deferred List.length] in *. lia.
+      + cbn [lex_spec l_line l_rest l_deferred]. split; [lia|]. split; [apply CONS; lia|]. split.
+        * unfold nu; cbn [l_rest l_deferred List.length] in *. lia.
+        * intros Q _ _. split; exact I.
     - eapply lex_spec_skip; [ | | |apply IH]; [reflexivity|reflexivity| | ].
       + cbn [l_rest l_line]. destruct (CONS (line + count_lines text)%N ltac:(lia)) as (c & E & L).
         exists c. split; [exact E|]. split; [|lia].
@@ -233,11 +269,12 @@ Proof.
     apply comment_end_spec in CE.
     destruct ((k <? 6)%nat || negb (starts_with [60; 33; 45; 45]%N (firstn k rest)) || negb (ends_with [45; 45]%N (firstn k rest))).
     { cbn [lex_spec l_line]. unfold phi; cbn [l_line l_rest]. lia. }
-    cbn [lex_spec l_line l_rest l_deferred]. split; [lia|]. split.
+    cbn [lex_spec l_line l_rest l_deferred]. split; [lia|]. split; [|split].
     - exists (firstn (S k) rest). split; [symmetry; apply firstn_skipn|].
       pose proof (count_lines_split k (firstn (S k) rest)) as S1.
       rewrite firstn_firstn in S1. replace (Nat.min k (S k)) with k in S1 by lia. lia.
-    - unfold nu; cbn [l_rest l_deferred]. rewrite skipn_length. lia. }
+    - unfold nu; cbn [l_rest l_deferred]. rewrite skipn_length. lia.
+    - intros Q FP _. split; [|exact I]. cbn [ev_all]. apply Forall_firstn, Forall_skipn, FP. }
   (* begin element: c1 is none of '/', '?', '!' *)
   cbv zeta in BEGIN.
   destruct c1 as [|p]; [exact BEGIN|].
@@ -325,5 +362,5 @@ Theorem lexer_total_full bs st : lex_reach bs st ->
 Proof.
   intros R. pose proof (lexer_total bs st R) as L. pose proof (next_spec st) as H.
   destruct (next st) as [[line ev st'|line e]| |]; try exact H; [|exact L].
-  destruct H as (H1 & H2 & H3). split; [exact L|]. split; [exact H1|]. split; [exact H2|exact H3].
+  destruct H as (H1 & H2 & H3 & _). split; [exact L|]. split; [exact H1|]. split; [exact H2|exact H3].
 Qed.
